@@ -56,10 +56,36 @@ func (w *World) CacheInvariant() error {
 	}
 	seen := map[string]bool{}
 	for _, c := range st.Conns {
-		if seen[c.Addr] {
+		if seen[strings.ToLower(c.Addr)] {
 			return fmt.Errorf("C20 connection cache holds two entries for %s", c.Addr)
 		}
-		seen[c.Addr] = true
+		seen[strings.ToLower(c.Addr)] = true
+	}
+	return nil
+}
+
+// CacheSettled is checked at quiescence after stabilisation (nothing is being
+// established, every call has returned): a region that is still in the key
+// cache, alive and marked available is usable as it stands - it has a region
+// client (which may have died unnoticed; that is found out on use). A region
+// that lost its client while it stayed cached as "available" was changed behind
+// the cache's back: the next request for it finds it unusable and has to
+// re-establish it.
+func (w *World) CacheSettled() error {
+	if w.Client == nil || w.ClosedStep != 0 {
+		return nil
+	}
+	st, ok := gohbase.VerifSnapshot(w.Client)
+	if !ok {
+		return nil
+	}
+	for _, r := range st.Regions {
+		if r.Dead || r.Unavailable {
+			continue
+		}
+		if r.ClientAddr == "" {
+			return fmt.Errorf("cached region %q is alive and marked available but has no region client", r.Name)
+		}
 	}
 	return nil
 }
@@ -299,7 +325,8 @@ func (w *World) DialCheck() []Violation {
 	e := w.Env
 	byAddr := map[string][]*DialRec{}
 	for _, d := range e.Dials {
-		for _, prev := range byAddr[d.Addr] {
+		host := strings.ToLower(d.Addr) // one server, however its name is spelled
+		for _, prev := range byAddr[host] {
 			if prev.Conn == nil {
 				continue // failed dial: justified
 			}
@@ -307,7 +334,7 @@ func (w *World) DialCheck() []Violation {
 				vs = append(vs, w.viol("C20", "dial-log", "dial #%d to %s at step %d while connection #%d to the same address was healthy (no death-justifying event)", d.N, d.Addr, d.Step, prev.N))
 			}
 		}
-		byAddr[d.Addr] = append(byAddr[d.Addr], d)
+		byAddr[host] = append(byAddr[host], d)
 	}
 	return vs
 }
